@@ -36,6 +36,7 @@ use crate::jsonpath::Mode;
 use crate::jsonpath::Selector;
 use crate::keypath::KeyPath;
 use crate::number::Number;
+use crate::parser::first_value_byte;
 use crate::parser::parse_value;
 use crate::value::Object;
 use crate::value::Value;
@@ -3118,7 +3119,7 @@ fn strip_nulls_object(header: u32, value: &[u8]) -> Result<ObjectBuilder<'_>, Er
 /// Possible types are object, array, string, number, boolean, and null.
 pub fn type_of(value: &[u8]) -> Result<&'static str, Error> {
     if !is_jsonb(value) {
-        return match value.first() {
+        return match first_value_byte(value) {
             Some(v) => match v {
                 b'n' => Ok(TYPE_NULL),
                 b't' | b'f' => Ok(TYPE_BOOLEAN),
